@@ -17,7 +17,7 @@ INNERS = {
     "Inner2": [("k", ("sc", "Int64")), ("x", ("arr", "Int32", (None,))), ("y", ("arr", "Int32", (None,)))],
     "Mid": [("z", ("sc", "Int16")), ("inn", ("hyb", "Inner"))],  # a nested class that nests another one (three levels)
 }
-SPLITS = {"outer": (2, 3), "same": (3, 2), "other": (4, 1)}  # equal total sizes (Int32 items, slot rounding), different splits
+SPLITS = {"outer": (2, 3), "same": (2, 3), "other": (4, 1)}  # equal total sizes (Int32 items, slot rounding); "other" splits the room differently: refused
 OUTERS = {
     "O1": [("x", ("sc", "Int64"))],
     "O2": [("x", ("sc", "Float64")), ("s", ("str",))],
@@ -253,6 +253,14 @@ class World:
             o = self.objs[oid]
             fs = field_specs(o["cname"])[fn]
             src = self.objs[self.helpers[(fs[1], where)]]
+            if fs[1] == "Inner2" and (len(src["m"]["x"]), len(src["m"]["y"])) != (len(o["m"][fn]["x"]), len(o["m"][fn]["y"])):
+                # equal total size, other split between the two dynamic fields: every part keeps the room fixed at its
+                # creation, so this value does not fit (exactly as the same value given as a dictionary does not)
+                try:
+                    setattr(o["h"], self.pyname(oid, fn), src["h"])
+                except ValueError:
+                    return "refused"
+                raise AssertionError("by-value assignment that splits the room of the nested part differently accepted")
             setattr(o["h"], self.pyname(oid, fn), src["h"])
             o["m"][fn] = pycopy.deepcopy(src["m"])
         elif kind == "ref-bind":
